@@ -768,6 +768,41 @@ class FunctionRun:
             return self.branch(c0["e"], state)
         if k == "bin" and c0["op"] in ("==", "!=", "<", "<=", ">", ">="):
             return self.branch_cmp(c0, state)
+        if k == "bin" and c0["op"] in ("&&", "||") and "pe" in c0:
+            # a logical operator under `!` / inside a larger condition: its left operand was branched on in an earlier block
+            # (choice recorded), its right operand was only evaluated there - refine on it here, without its side effects
+            tid = c0["pe"]
+            ch = state.get(("C", tid))
+            ns = state
+            if ch is not None:
+                ns = dict(state)
+                del ns[("C", tid)]
+            saved = getattr(self, "force_pure", False)
+            self.force_pure = True
+            try:
+                # the left operand: its truth was recorded when this operator's terminator ran; when it did not run on this
+                # path (a nested operator short-circuited past it) the operand is evaluated again, which consults the nested
+                # operator's own record
+                tl, fl = self.branch(c0["l"], ns)
+                if ch is True:
+                    tl, fl = (tl or [ns]), []
+                elif ch is False:
+                    tl, fl = [], (fl or [ns])
+                if c0["op"] == "&&":
+                    ts, fs = [], list(fl)
+                    for s_ in tl:
+                        t2, f2 = self.branch(c0["r"], s_)
+                        ts += t2
+                        fs += f2
+                else:
+                    ts, fs = list(tl), []
+                    for s_ in fl:
+                        t2, f2 = self.branch(c0["r"], s_)
+                        ts += t2
+                        fs += f2
+                return ts, fs
+            finally:
+                self.force_pure = saved
         if k == "bin" and c0["op"] in ("&&", "||") and "pe" not in c0:
             # not decomposed by the CFG (should not happen): conservative
             outs = self.eval(c0, state)
@@ -919,6 +954,7 @@ class FunctionRun:
         """Evaluate expression e; returns list of (state, value, ref)."""
         if e is None:
             return [(state, TOP, None)]
+        pure = pure or getattr(self, "force_pure", False)
         k = e.get("k")
         if "pe" in e and k != "int":
             return self.eval_pe(e, state)
